@@ -531,6 +531,53 @@ def loadLegacy (fixed fills : Bool) (im : Image) (cacheMax : Option Nat) : Excep
                         cacheMax := cacheMax, cache := [] }
       if fills then fillMinNBelow fixed t else .ok t
 
+/-! ### `combine` -/
+
+/-- `int(math.ceil(math.log(n, d)))` for `n ≥ 1`, `d ≥ 2`: the least `k` with `d^k ≥ n` (a float
+`log` a hair above an exact integer only adds a level in which nothing is found to copy) -/
+def ceilLog (d n : Nat) : Nat := go n 0 1
+where
+  go : Nat → Nat → Nat → Nat
+    | 0, k, _ => k
+    | f + 1, k, pw => if pw ≥ n then k else go f (k + 1) (pw * d)
+
+/-- one source tree's share of one level: `cnt` positions from `lo` copied to `cur ..` (an
+internal node wins over a leaf at the same position, nothing is copied from an empty position) -/
+def combineCopy (src : Tree) : Nat → Nat → Nat → PMap INode × PMap Leaf → PMap INode × PMap Leaf
+  | 0, _, _, acc => acc
+  | cnt + 1, lo, cur, (ns, ls) =>
+    let acc := match src.nodes.get? lo with
+      | some n => (ns.set cur n, ls)
+      | none => match src.leaves.get? lo with
+        | some l => (ns, ls.set cur l)
+        | none => (ns, ls)
+    combineCopy src cnt (lo + 1) (cur + 1) acc
+
+/-- the `for level in range(1, levels + 1)` loop: `nPrev .. nNext-1` are the positions of one level
+of the source trees, `cur` the first position of the next level of the result -/
+def combineLevels (d : Nat) (larger smaller : Tree) :
+    Nat → Nat → Nat → Nat → Nat → PMap INode × PMap Leaf → PMap INode × PMap Leaf
+  | 0, _, _, _, _, acc => acc
+  | rem + 1, level, nPrev, nNext, cur, acc =>
+    let cnt := nNext - nPrev
+    let acc := combineCopy larger cnt nPrev cur acc
+    let acc := combineCopy smaller cnt nPrev (cur + cnt) acc
+    let nNext' := nNext + d ^ level
+    combineLevels d larger smaller rem (level + 1) nNext nNext' nNext' acc
+
+/-- `self.combine(other)`: a fresh root merging the two roots; level by level the larger tree (ties:
+`self`) fills the first subtree and the smaller one the second.  Everything else of `self`
+(`_missing_nodes`, `next_node`, cache, manifest) is left as it is -/
+def combine (self other : Tree) : Except Err Tree :=
+  let (larger, smaller) := if other.leaves.length > self.leaves.length then (other, self) else (self, other)
+  match larger.nodes.get? 0, smaller.nodes.get? 0 with
+  | some rl, some rs =>
+    let root := nodeUpdate self.sizes rs (nodeUpdate self.sizes rl INode.fresh)
+    let levels := ceilLog self.d (max larger.leaves.length 2) + 1
+    let (ns, ls) := combineLevels self.d larger smaller levels 1 0 1 1 (PMap.set [] 0 root, [])
+    .ok { self with nodes := ns, leaves := ls }
+  | _, _ => .error .key
+
 /-! ### observation helpers (used by the driver and by the executable invariant) -/
 
 def Tree.positions (t : Tree) : List Nat :=
